@@ -268,9 +268,9 @@ def enc_outcome(out):
 
 def enc_dval(d):
     if d[0] == "H":
-        return "(DHash %s %s %s)" % (enc_T(d[1]), enc_str(d[2]), enc_str(d[3]))
+        return "(DHash %s %s)" % (enc_T(d[1]), enc_str(d[2] + d[3]))
     if d[0] == "K":
-        return "(DKey %s %s %s %s)" % (enc_str(d[1]), enc_T(d[2]), enc_str(d[3]), enc_str(d[4]))
+        return "(DKey %s %s %s)" % (enc_str(d[1]), enc_T(d[2]), enc_str(d[3] + d[4]))
     return "DEmpty"          # unknown digest: never equal to what the model stores
 
 
